@@ -56,7 +56,7 @@ package main
 //@   atcall SetDeadline#1 before: assert @C03: 5000000000 <= tnanos(arg1) - now() && tnanos(arg1) - now() < 10000000000
 //@   atcall SetDeadline#1 before: snap deadlineAsked := true
 //@   atcall io.Copy before: assert @C03: defined(deadlineAsked) && arg1 == clientConn
-//@   atcall Read before: assert @C03: defined(deadlineAsked)
+//@   atcall net.Conn).Read before: assert @C03: defined(deadlineAsked)
 //@   atcall MarkActive before: snap matched := true
 // C17: at every log call of the handler the error in scope - the only value of the handler that can carry an address
 // when client address logging is off - is nil or address-free (one obligation per log call site)
@@ -70,7 +70,7 @@ package main
 // registration is marked active and exactly the matched registration and wrapped connection go to the relay.
 //@   atcall WrapConnection before: assert @C04: arg1 == &received && arg2 == clientConn
 //@   atcall WrapConnection before: snap offeredAt := nread(clientConn)
-//@   atcall Read before: assert @C04: nread(clientConn) == old(nread(clientConn)) || (defined(offeredAt) && offeredAt == nread(clientConn))
+//@   atcall net.Conn).Read before: assert @C04: nread(clientConn) == old(nread(clientConn)) || (defined(offeredAt) && offeredAt == nread(clientConn))
 //@   atcall MarkActive before: assert @C04: arg1 == reg
 //@   atcall Proxy before: assert @C04: defined(matched) && arg0 == reg && arg1 == wrapped && reg != nil && wrapped != nil
 //@   ensures @C03: !defined(matched) && !defined(gaveUp) ==> nwrites(clientConn) == old(nwrites(clientConn)) && closed(clientConn) == old(closed(clientConn))
